@@ -44,7 +44,8 @@ def cmd_run(prop, tier, runs=None, budget=None, quiet=False):
             else:
                 n_runs = int(int(os.environ.get('VERIF_RUNS', 0)) * quick_runs / parts[0][2]) \
                     or quick_runs
-            b = core.run_batch(ename, prop, tier, seed, n_runs=n_runs, explicit_plans=explicit)
+            b = core.run_batch(ename, prop, tier, seed, n_runs=n_runs, explicit_plans=explicit,
+                               stop_on_violation=bool(os.environ.get('VERIF_STOP_ON_VIOLATION')))
         else:
             budget_s = budget if budget is not None else float(
                 os.environ.get('VERIF_BUDGET_S', cfg['thorough_s']))
